@@ -9,7 +9,7 @@ D3 inputs intact  no function of the four modules has an in-place effect on stor
 """
 import ast
 
-from .. import alias, kernels, kernelrules, astutil
+from .. import alias, kernels, kernelrules, astutil, inline
 from ..model import norm, AnalysisError, root_name
 from .c11 import emit
 
@@ -110,7 +110,11 @@ def d2(ctx, prog):
         for f in prog.funcs_in(modname):
             if f.parent is not None or prog.numba_kind(f)[0]:
                 continue
-            raw = array_params(prog, f)
+            if f.name.startswith('_') and any(f.key in getattr(inline.inlined(prog, g), 'inlined_helpers', []) for g in prog.funcs_in(modname) if g is not f):
+                continue          # a private helper: judged inlined at its call sites
+            f0 = f
+            f = inline.inlined(prog, f, skip={'_moving_argument_check', '_check_and_cast_args'})
+            raw = array_params(prog, f0)
             arrays = set(raw)
             for st in astutil.stmts_of(f.node):
                 # sinks in this statement are judged against the state *before* it
@@ -219,5 +223,5 @@ def run(ctx, prog):
     d1(ctx, prog)
     n2 = d2(ctx, prog)
     n3 = d3(ctx, prog)
-    ctx.floor('power/product sinks on parameters', n2, 10)
+    ctx.floor('power/product sinks on parameters', n2, 6)
     ctx.floor('in-place effects judged', n3, 2)
